@@ -1326,6 +1326,24 @@ impl TypeChecker {
                 self.type_info.unionfind.set(b_var, a.clone());
                 a.clone()
             }
+            // Anonymous record types written out at different places are
+            // the same type if they have the same fields in the same order
+            // (the order determines the layout). They are never `==`
+            // because their field names carry different source locations.
+            (Record(a_fields), ref b @ Record(ref b_fields)) => {
+                if a_fields.len() != b_fields.len() {
+                    return None;
+                }
+                for ((a_name, a_ty), (b_name, b_ty)) in
+                    a_fields.iter().zip(b_fields)
+                {
+                    if a_name.node != b_name.node {
+                        return None;
+                    }
+                    self.unify_inner(a_ty, b_ty)?;
+                }
+                b.clone()
+            }
             (RecordVar(var, fields), Name(name))
             | (Name(name), RecordVar(var, fields)) => {
                 let type_def = self.type_info.resolve_type_name(name.name);
